@@ -43,6 +43,9 @@ Definition is_N (f : fail) := clause_eqb (f_clause f) CNest.
 Definition is_S (f : fail) := clause_eqb (f_clause f) CSibling.
 Definition fsp (f : fail) : sourcepos := nsp (f_node f).
 
+Definition sp_eqb (a b : sourcepos) : bool :=
+  (sl a =? sl b) && (sc a =? sc b) && (el a =? el b) && (ec a =? ec b).
+
 (* ---- C11-a / C12-a  end_col_zero: a block that is still open when a blank line (or the end of the
    input) finalizes it gets end = (that line, last_line_length = 0): column 0 of a blank line ---- *)
 Definition cls_end_col_zero (L : list srcline) (f : fail) : bool :=
@@ -54,26 +57,75 @@ Definition cls_end_col_zero (L : list srcline) (f : fail) : bool :=
 
 (* ---- C11-b / C12-b  refdef_before_paragraph (F23): the inlines of a paragraph (or setext heading) whose
    source begins with a link reference definition are positioned as if the definitions were still there.
-   Predicate: the nearest block is a Paragraph or Heading whose first line has a left bracket and then a
-   right bracket followed by a colon. ---- *)
-Definition begins_with_refdef (L : list srcline) (p : node) : bool :=
-  match nval p with
-  | Paragraph | Heading _ _ =>
-    match line_at L (sl (nsp p)) with
-    | Some l => contains (ln_body l) [x5b] && contains (ln_body l) [x5d; x3a]
-    | None => false
-    end
-  | _ => false
+   Predicate: the node is an inline whose nearest block is a Paragraph or Heading whose source, read from
+   the block's own start position, is a left bracket, a label (no unescaped bracket in it; it may run over
+   line ends) and a right bracket followed by a colon.
+   Second shape, same root: when such a paragraph is the first block of a task list item, process_tasklist
+   copies the (misplaced) column of the text after the task marker into the START COLUMN OF THE PARAGRAPH;
+   then the paragraph itself is in the class, and the definition is looked for after the list marker at the
+   start of the item. ---- *)
+Fixpoint label_then_colon (s : bytes) (esc : bool) : bool :=
+  match s with
+  | [] => false
+  | b :: r =>
+    if esc then label_then_colon r false
+    else if beqb b x5c then label_then_colon r true
+    else if beqb b x5b then false
+    else if beqb b x5d then match r with c :: _ => beqb c x3a | [] => false end
+    else label_then_colon r false
+  end.
+Definition starts_with_refdef (s : bytes) : bool :=
+  match s with b :: r => beqb b x5b && label_then_colon r false | [] => false end.
+(* the source from (ln, c) to the end of line `last` *)
+Definition text_from (L : list srcline) (ln c last : N) : bytes :=
+  match line_at L ln with
+  | Some l => skipn (N.to_nat (c - 1)) (ln_full l) ++ lines_between L (N.to_nat ln) (N.to_nat (last - ln))
+  | None => []
+  end.
+Fixpoint drop_list_marker (s : bytes) : bytes :=
+  match s with
+  | b :: r => if is_ws b || is_digit b || beqb b x2d || beqb b x2b || beqb b x2a || beqb b x2e || beqb b x29
+              then drop_list_marker r else s
+  | [] => []
+  end.
+Definition is_task_item (n : node) : bool := match nval n with TaskItem _ => true | _ => false end.
+Definition is_para_or_heading (n : node) : bool := match nval n with Paragraph | Heading _ _ => true | _ => false end.
+(* p: the block; anc: its ancestors, nearest first *)
+Definition begins_with_refdef (L : list srcline) (p : node) (anc : list node) : bool :=
+  is_para_or_heading p &&
+  (starts_with_refdef (text_from L (sl (nsp p)) (sc (nsp p)) (el (nsp p))) ||
+   match anc with
+   | it :: _ => is_task_item it &&
+                match nch it with
+                | q :: _ => sp_eqb (nsp q) (nsp p) &&
+                            starts_with_refdef (drop_list_marker (text_from L (sl (nsp it)) (sc (nsp it)) (el (nsp p))))
+                | [] => false
+                end
+   | [] => false
+   end).
+(* the nearest block among the node itself and its ancestors, with that block's ancestors *)
+Fixpoint nearest_block_in (l : list node) : option (node * list node) :=
+  match l with
+  | [] => None
+  | a :: r => if is_inline a then nearest_block_in r else Some (a, r)
   end.
 Definition cls_refdef (L : list srcline) (f : fail) : bool :=
-  is_inline (f_node f) &&
-  match nearest_block f with Some p => begins_with_refdef L p | None => false end.
+  match nearest_block_in (f_node f :: f_anc f) with
+  | Some (p, anc) =>
+    if is_inline (f_node f) then begins_with_refdef L p anc
+    else (* the paragraph of a task item itself *)
+      match anc with it :: _ => is_task_item it && begins_with_refdef L p anc | [] => false end
+  | None => false
+  end.
 
 (* ---- C11-c / C12-c  bom_line1: with a byte-order mark, start columns on line 1 count its three bytes
-   and some end columns do not; a table that starts on line 1 hands its start column to all its rows ---- *)
+   and some end columns do not; a table that starts on line 1 hands its start column to all its rows.
+   Predicate: the source has a byte-order mark and the node itself starts or ends on line 1, or lies in a
+   table that starts on line 1 ---- *)
 Definition cls_bom (L : list srcline) (f : fail) : bool :=
-  src_has_bom L && existsb (fun n => (sl (nsp n) =? 1) || (el (nsp n) =? 1))
-                           (f_node f :: filter (fun a => negb (match nval a with Document => true | _ => false end)) (f_anc f)).
+  src_has_bom L &&
+  ((sl (fsp f) =? 1) || (el (fsp f) =? 1) ||
+   existsb (fun a => match nval a with Table _ => sl (nsp a) =? 1 | _ => false end) (f_anc f)).
 
 (* ---- mbq_unfinalized: when the closing fence of a multiline block quote (or multiline alert) arrives
    only its last child is finalized; deeper blocks that are still open keep the end they were created
@@ -142,7 +194,19 @@ Fixpoint prefix_ok (in_quote header : bool) (s : bytes) : bool :=
      (header && marker_char b && match r with c :: _ => is_ws c | [] => false end))
     && prefix_ok in_quote header r
   end.
-Definition row_misaligned (L : list srcline) (in_quote : bool) (r t : node) : bool :=
+(* after_para: the header row came after other lines of the paragraph (the table follows, among its
+   siblings, a paragraph that ends on the line before it).  Such a line may be a lazy continuation line,
+   which keeps its leading blanks in the paragraph text: they are then part of the row's text, the first
+   cell is reported from the table's start column with their width added.  So on such a line a blank just
+   before the table's start column also means the row's text does not begin at that column. *)
+Definition is_para_n (n : node) : bool := match nval n with Paragraph => true | _ => false end.
+Fixpoint para_then_table (t : node) (l : list node) : bool :=
+  match l with
+  | a :: ((b :: _) as r) =>
+    (is_para_n a && is_table b && sp_eqb (nsp b) (nsp t) && (el (nsp a) + 1 =? sl (nsp t))) || para_then_table t r
+  | _ => false
+  end.
+Definition row_misaligned (L : list srcline) (in_quote after_para : bool) (r t : node) : bool :=
   let c := sc (nsp t) in let ln := sl (nsp r) in
   match line_at L ln with
   | None => true
@@ -150,26 +214,31 @@ Definition row_misaligned (L : list srcline) (in_quote : bool) (r t : node) : bo
     match nth_error (ln_body l) (N.to_nat (c - 1)) with
     | None => true
     | Some b => is_ws b || (in_quote && beqb b x3e) ||
-                negb (prefix_ok in_quote (is_header_row r) (firstn (N.to_nat (c - 1)) (ln_body l)))
+                negb (prefix_ok in_quote (is_header_row r) (firstn (N.to_nat (c - 1)) (ln_body l))) ||
+                (is_header_row r && after_para && (2 <=? c) &&
+                 match nth_error (ln_body l) (N.to_nat (c - 2)) with Some b' => is_ws b' | None => false end)
     end
   end.
 Definition cls_row_indent (L : list srcline) (f : fail) : bool :=
   match find is_row (f_node f :: f_anc f), find is_table (f_anc f) with
-  | Some r, Some t => row_misaligned L (existsb is_quote_n (f_anc f)) r t
+  | Some r, Some t =>
+    row_misaligned L (existsb is_quote_n (f_anc f)) (existsb (fun a => para_then_table t (nch a)) (f_anc f)) r t
   | _, _ =>
     (* the Table node itself: judged by its header row *)
     match f_node f with
-    | Node (Table _) _ (r :: _) => row_misaligned L (existsb is_quote_n (f_anc f)) r (f_node f)
+    | Node (Table _) _ (r :: _) =>
+      row_misaligned L (existsb is_quote_n (f_anc f)) (existsb (fun a => para_then_table (f_node f) (nch a)) (f_anc f)) r (f_node f)
     | _ => false
     end
   end.
 
 (* ---- html_block_end_condition: an HTML block of type 1 to 5 is closed ON the line that meets its end
    condition, but finalize gives it the end of the line before (line_number - 1): the block ends one
-   line early, and a one-line block ends before it starts ---- *)
+   line early, and a one-line block ends before it starts (the only shape in which a clause fails: end line
+   before start line) ---- *)
 Definition cls_html_end (L : list srcline) (f : fail) : bool :=
   match nval (f_node f) with
-  | HtmlBlock ty _ => (1 <=? ty) && (ty <=? 5)
+  | HtmlBlock ty _ => (1 <=? ty) && (ty <=? 5) && is_B f && (el (fsp f) <? sl (fsp f))
   | _ => false
   end.
 
@@ -202,23 +271,35 @@ Definition cls_ml_inline (L : list srcline) (f : fail) : bool :=
   | _ => false
   end.
 
-(* ---- description_list: the documentation says the description lists extension still has issues ---- *)
+(* ---- description_list: the documentation says the description lists extension still has issues; the
+   code (parse_desc_list_details) says which: the end of every DescriptionItem and DescriptionDetails but
+   the last, and every DescriptionTerm (it gets the start of the details); the paragraph of a term that is
+   directly followed by its details line is still open when it is moved into the term and is closed later
+   with the end of a later line.  Predicate: the node is one of the four description list kinds, or the
+   Paragraph directly inside a DescriptionTerm.  (Nodes below them are not in the class.) ---- *)
 Definition is_dl (n : node) : bool :=
   match nval n with DescriptionList | DescriptionItem _ _ _ | DescriptionTerm | DescriptionDetails => true | _ => false end.
-Definition cls_dl (L : list srcline) (f : fail) : bool := existsb is_dl (f_node f :: f_anc f).
+Definition cls_dl (L : list srcline) (f : fail) : bool :=
+  is_dl (f_node f) ||
+  match nval (f_node f), f_anc f with
+  | Paragraph, p :: _ => match nval p with DescriptionTerm => true | _ => false end
+  | _, _ => false
+  end.
 
 (* ---- nul_shift: positions are computed on the buffer in which every NUL byte (1 byte) has been replaced
-   by U+FFFD (3 bytes): on a line that contains NUL, columns after it are 2 too large per NUL ---- *)
+   by U+FFFD (3 bytes): on a line that contains NUL, columns after it are 2 too large per NUL.
+   Predicate: a NUL lies on the node's start line before its start column, or on its end line at or before
+   its end column (a node that lies entirely in front of the first NUL of its line is not in the class) ---- *)
 Definition line_has (L : list srcline) (ln : N) (p : byte -> bool) : bool :=
   match line_at L ln with Some l => existsb p (ln_body l) | None => false end.
+Definition nul_before (L : list srcline) (ln c : N) : bool :=
+  match line_at L ln with Some l => existsb (fun b => beqb b x00) (firstn (N.to_nat c) (ln_body l)) | None => false end.
 Definition cls_nul (L : list srcline) (f : fail) : bool :=
-  line_has L (sl (fsp f)) (fun b => beqb b x00) || line_has L (el (fsp f)) (fun b => beqb b x00).
+  nul_before L (sl (fsp f)) (sc (fsp f) - 1) || nul_before L (el (fsp f)) (ec (fsp f)).
 
 (* ---- table_escaped_pipe: the content of a cell is unescaped (backslash pipe -> pipe) BEFORE its inlines are
    parsed, so every inline after an escaped pipe is one column to the left per escaped pipe ---- *)
 Definition is_cell_n (n : node) : bool := match nval n with TableCell => true | _ => false end.
-Definition sp_eqb (a b : sourcepos) : bool :=
-  (sl a =? sl b) && (sc a =? sc b) && (el a =? el b) && (ec a =? ec b).
 Fixpoint followed_by_table (p : node) (l : list node) : bool :=
   match l with
   | a :: ((b :: _) as r) => (sp_eqb (nsp a) (nsp p) && is_table b) || followed_by_table p r
@@ -248,31 +329,87 @@ Fixpoint descendants (n : node) : list node :=
   | Node _ _ ch => (fix go (l : list node) : list node :=
                       match l with [] => [] | c :: r => c :: descendants c ++ go r end) ch
   end.
-Definition ends_beyond_line (L : list srcline) (n : node) : bool :=
-  match nval n with
-  | Link _ _ | Image _ _ =>
-    (sl (nsp n) =? el (nsp n)) &&
-    match line_at L (el (nsp n)) with
-    | Some l => blen (ln_full l) <? ec (nsp n)
-    | None => false
-    end
-  | _ => false
-  end.
-Definition cls_link_nl (L : list srcline) (f : fail) : bool :=
-  is_inline (f_node f) &&
-  match nearest_block f with
-  | Some b => existsb (ends_beyond_line L) (descendants b)
+Definition is_link_or_image (n : node) : bool := match nval n with Link _ _ | Image _ _ => true | _ => false end.
+Definition is_wikilink (n : node) : bool := match nval n with WikiLink _ => true | _ => false end.
+Definition ends_beyond_line_k (kindp : node -> bool) (L : list srcline) (n : node) : bool :=
+  kindp n && (sl (nsp n) =? el (nsp n)) &&
+  match line_at L (el (nsp n)) with
+  | Some l => blen (ln_full l) <? ec (nsp n)
   | None => false
   end.
+Definition ends_beyond_line := ends_beyond_line_k is_link_or_image.
+(* ... and the failing node is that link, contains it, or starts at or after its reported end *)
+Definition same_node (a b : node) : bool := sp_eqb (nsp a) (nsp b) && kind_eqb (kind_of (nval a)) (kind_of (nval b)).
+Definition cls_nl_uncounted (kindp : node -> bool) (L : list srcline) (f : fail) : bool :=
+  is_inline (f_node f) &&
+  match nearest_block f with
+  | Some b =>
+    existsb (fun k => ends_beyond_line_k kindp L k &&
+                      (same_node k (f_node f) || existsb (same_node k) (descendants (f_node f)) ||
+                       lex_le (el (nsp k)) (ec (nsp k)) (sl (fsp f)) (sc (fsp f))))
+            (descendants b)
+  | None => false
+  end.
+Definition cls_link_nl := cls_nl_uncounted is_link_or_image.
+(* ---- wikilink_newline: the same for a wikilink: handle_wikilink scans to the closing brackets across a
+   line break and positions the node with make_inline on the line it started, the line counter and the
+   column offset are not moved ---- *)
+Definition cls_wikilink_nl := cls_nl_uncounted is_wikilink.
 
 (* ---- footnote_name_newline (F25): a footnote reference (or the text it falls back to) whose name spans a
    line break takes its start column from the first line and its end column from the second ---- *)
+(* The line break inside the name is the witness: only Text and HtmlInline pieces of the name are removed,
+   so the break stays in the tree right AFTER the reference (or after the Text it falls back to when the
+   name has no definition, possibly merged with its neighbours), and the source line of that break ends
+   inside a footnote bracket that is still open. *)
+Definition is_break (n : node) : bool := match nval n with SoftBreak | LineBreak => true | _ => false end.
+(* open = Some d: inside a footnote bracket, with d plain brackets open inside it *)
+Fixpoint fn_open_at_end (s : bytes) (open : option nat) : bool :=
+  match s with
+  | [] => match open with Some _ => true | None => false end
+  | b :: r =>
+    match open with
+    | None => if beqb b x5b && match r with c :: _ => beqb c x5e | [] => false end
+              then fn_open_at_end r (Some O) else fn_open_at_end r None
+    | Some d => if beqb b x5b then fn_open_at_end r (Some (S d))
+                else if beqb b x5d then fn_open_at_end r (match d with O => None | S d' => Some d' end)
+                else fn_open_at_end r open
+    end
+  end.
+Definition break_in_open_name (L : list srcline) (b : node) : bool :=
+  is_break b &&
+  match line_at L (sl (nsp b)) with
+  | Some l => fn_open_at_end (firstn (N.to_nat (sc (nsp b) - 1)) (ln_body l)) None
+  | None => false
+  end.
+Fixpoint break_follows (L : list srcline) (n : node) (l : list node) : bool :=
+  match l with
+  | a :: ((b :: _) as r) =>
+    (same_node a n && (negb (sp_before (nsp a) (nsp b)) ||
+                       existsb (fun k => break_in_open_name L k && (sl (nsp k) =? sl (nsp a))) r)) || break_follows L n r
+  | _ => false
+  end.
+(* Any other piece of the name that is not a Text or HtmlInline (an image, a link, a code span, a nested
+   reference) stays behind the reference in the same way: the sibling right after the reference does not
+   come after it.  Second shape of the nested reference: another footnote reference inside the name (a footnote bracket opened while
+   one is open) is not a Text either; it stays behind the outer reference, and when neither has a definition
+   both fall back to Text and are merged in that (wrong) order. *)
+Fixpoint fn_nested (s : bytes) (open : bool) : bool :=
+  match s with
+  | [] => false
+  | b :: r =>
+    if beqb b x5d then fn_nested r false
+    else if beqb b x5b && match r with c :: _ => beqb c x5e | [] => false end then open || fn_nested r true
+    else fn_nested r open
+  end.
 Definition cls_footnote_nl (L : list srcline) (f : fail) : bool :=
   match nval (f_node f) with
   | FootnoteReference _ _ _ => true
   | Text lit => contains lit [x5b; x5e]
   | _ => false
-  end.
+  end &&
+  (match f_anc f with p :: _ => break_follows L (f_node f) (nch p) | [] => false end ||
+   match line_at L (sl (fsp f)) with Some l => fn_nested (ln_body l) false | None => false end).
 
 (* ---- partial_tab: when a tab after a container marker is only partly consumed by the marker, add_line
    writes the rest of the tab into the content as spaces; they count as source bytes, so the inlines of
@@ -286,8 +423,15 @@ Fixpoint tab_in_prefix (s : bytes) : bool :=
     else if beqb b x20 || beqb b x3e || beqb b x2d || beqb b x2b || beqb b x2a || beqb b x2e || beqb b x29 || is_digit b
     then tab_in_prefix r else false
   end.
+(* a tab can be consumed in part only by a container (quote marker, list item indentation) *)
+Definition is_container_n (n : node) : bool :=
+  match nval n with
+  | BlockQuote | MultilineBlockQuote _ _ | Alert _ | Item _ | TaskItem _ | FootnoteDefinition _ _
+  | DescriptionItem _ _ _ | DescriptionDetails => true
+  | _ => false
+  end.
 Definition cls_partial_tab (L : list srcline) (f : fail) : bool :=
-  is_inline (f_node f) &&
+  is_inline (f_node f) && existsb is_container_n (f_anc f) &&
   (match line_at L (sl (fsp f)) with Some l => tab_in_prefix (ln_body l) | None => false end ||
    match line_at L (el (fsp f)) with Some l => tab_in_prefix (ln_body l) | None => false end).
 
@@ -300,9 +444,7 @@ Definition cls_wikilink (L : list srcline) (f : fail) : bool :=
 
 Local Open Scope string_scope.
 Definition classes : list (string * (list srcline -> fail -> bool)) :=
-  [ ("bom_line1", cls_bom);
-    ("nul_shift", cls_nul);
-    ("html_block_end_condition", cls_html_end);
+  [ ("html_block_end_condition", cls_html_end);
     ("end_col_zero", cls_end_col_zero);
     ("mbq_unfinalized", cls_mbq);
     ("thematic_break_in_container", cls_hr);
@@ -317,7 +459,10 @@ Definition classes : list (string * (list srcline -> fail -> bool)) :=
     ("multiline_inline_offset", cls_ml_inline);
     ("footnote_name_newline", cls_footnote_nl);
     ("link_dest_newline", cls_link_nl);
-    ("partial_tab", cls_partial_tab) ].
+    ("wikilink_newline", cls_wikilink_nl);
+    ("partial_tab", cls_partial_tab);
+    ("nul_shift", cls_nul);
+    ("bom_line1", cls_bom) ].
 
 Definition classify1 (L : list srcline) (f : fail) : option string :=
   match find (fun c => snd c L f) classes with Some c => Some (fst c) | None => None end.
@@ -332,6 +477,21 @@ Definition classify (L : list srcline) (f : fail) : option string :=
     match f_clause f, f_anc f, f_prev f with
     | CNest, p :: anc, _ => classify1 L (as_bounds p anc)
     | CSibling, _, Some a => classify1 L (as_bounds a (f_anc f))
+    | CSlice, _, _ =>
+      (* a delimited span is judged against the positions of its first and last child: excused when one of
+         those is in a class *)
+      match nval (f_node f) with
+      | Emph | Strong | Strikethrough =>
+        match nch (f_node f), rev (nch (f_node f)) with
+        | a :: _, z :: _ =>
+          match classify1 L (as_bounds a (f_node f :: f_anc f)) with
+          | Some c => Some c
+          | None => classify1 L (as_bounds z (f_node f :: f_anc f))
+          end
+        | _, _ => None
+        end
+      | _ => None
+      end
     | _, _, _ => None
     end
   end.
